@@ -5,12 +5,88 @@ import json, os, subprocess
 ROOT = os.path.dirname(os.path.dirname(os.path.abspath(__file__)))
 
 # id -> (category, technique, level text, level note, design ref)
+TB = 'Trusts OpenSSL 3.0 primitives, the RFC 7748 ladder and the executable specification in refspec.rs (self-tested at every start against RFC 8439/7748/5869/4231/7914 vectors, the Noise X vector and the repository fixtures; a failing self-test makes the run inconclusive). Held only on the executions listed in the evidence file.'
 CHECKS = {
  "C01": ("exploration",
-   "runtime monitoring: scripted Read/Write event log + round-trip and reference-decoder oracles over exhaustive small-scope read partitions and production-size schedules",
-   "Every read partition of every plaintext up to a small bound is executed through the real chunk loops (chunk size 1..4 via the verif-hooks wrappers) and judged by round trip and by an independent OpenSSL-based decoder; the public key_encrypt/key_decrypt API is driven at 64 KiB boundaries under short-read/short-write schedules with fresh, edge and implementation-generated keys. Exhaustive inside the small scope, sampled beyond it.",
-   "Trusts OpenSSL primitives and the reference decoder (self-tested against RFC 8439/7748/5869/7914, the Noise X vector and the repository fixtures at every start). Held on the executions listed in the evidence file only.",
-   "DESIGN.md 4 C01"),
+   "runtime monitoring: scripted Read/Write event log; round-trip + reference-decoder oracle over exhaustive small-scope read partitions and production-size schedules",
+   "Every read partition of every plaintext up to a small bound runs through the real chunk loops (chunk size 1..4 via the verif-hooks wrappers) and is judged by round trip and by an independent OpenSSL-based decoder; key_encrypt/key_decrypt are driven at 64 KiB boundaries under short-read/short-write schedules with fresh, edge and implementation-generated keys. Exhaustive inside the small scope, sampled beyond it.",
+   TB, "DESIGN.md 4 C01"),
+ "C02": ("exploration",
+   "runtime monitoring: password-mode round trips vs OpenSSL reference; wrong-password rejection monitor with HMAC-equivalence model",
+   "As C01 with the password AAD, plus full pass_encrypt/pass_decrypt round trips over a password pool (empty, UTF-8, NUL, invalid UTF-8, 63/64/65/200 bytes) and a wrong-password family (every bit edit of short passwords, prefix/suffix/case/random) that must fail and write nothing. HMAC-equivalent passwords are a recorded known finding.",
+   TB, "DESIGN.md 4 C02"),
+ "C03": ("exploration",
+   "runtime monitoring: acceptance-model oracle over structured edits of authentic files (exhaustive small scope, key/password files, 3x64KiB files)",
+   "Every named edit operator instance on every body of <=5 chunks (chunk size <=3) and on key/password/production files is offered to the real decryptor; Ok is allowed only for bytes equal to an authentic file outside the advisory counter fields, with that file's plaintext and sender.",
+   TB + " Assumes the AEAD/DH primitives are secure: the monitor sees rejection, not infeasibility.", "DESIGN.md 4 C03"),
+ "C04": ("fault_enumeration",
+   "runtime monitoring: offline checker over the interleaved read/write event log vs the reference's authenticated prefix; a fault at every read/write/flush call index",
+   "Each decrypt execution's event log is replayed against the reference decoding of the presented bytes: every write must carry the next authenticated bytes of a chunk whose whole record was already read; the sink ends on a chunk boundary; Ok only with a verified final chunk at EOF. Stop points are enumerated: every call index x fault kind, for valid, truncated and edited files; plus the CLI's output file after corrupted inputs.",
+   TB, "DESIGN.md 4 C04"),
+ "C05": ("exploration",
+   "runtime monitoring: key-mismatch matrix + independent forger (weakened-protocol family, low-order points) with accept/reject oracle; CLI supervisor",
+   "Real key_encrypt over all (private used, public claimed, recipient) triples of four fresh key pairs, decrypted under the key matrix; forged handshakes built by an independent Noise writer without the claimed sender's private key (ss zero/reused/omitted/random, es dropped, recipient/prologue unbound, all low-order encodings as static and ephemeral); low-order recipients through the library and the CLI.",
+   TB + " Cryptographic hardness is assumed.", "DESIGN.md 4 C05"),
+ "C06": ("exploration",
+   "runtime monitoring: byte-for-byte differential against an executable specification built on OpenSSL; golden files",
+   "Encryptor output with injected randomness is re-encoded by the specification (using the chunking the encryptor chose) and compared byte for byte; specification-made files with arbitrary legal chunkings must decrypt; exported Noise functions and the Noise nonce over the whole u64 range vs the specification; golden files of the pinned tree and the repository fixtures keep decrypting.",
+   TB + " 'Earlier 1.x releases' are represented only by the two fixtures in the repository.", "DESIGN.md 4 C06"),
+ "C07": ("exploration",
+   "runtime monitoring: history monitor (global uniqueness set over every random field of every output) + per-file nonce audit by the reference",
+   "N identical invocations (library from 16 threads, and fresh CLI processes for encrypt / password encrypt / key generate / change-pass) feed every ephemeral key, payload key, file key, private key and salt into one set; any repeat (same or other class) and any degenerate byte position is a violation; per file the reference opens chunk i under nonce i.",
+   "Uniqueness over N samples exposes only sources with about < 2*log2(N) bits of entropy; entropy quality beyond that is assumed of getrandom. " + TB, "DESIGN.md 4 C07"),
+ "C08": ("exploration",
+   "runtime monitoring: ciphertext content scanner + identity-swap pairs + length law with chunk count from the reference",
+   "Every produced file is scanned for both public keys (raw, keyring blob, base64, hex, every 12-byte window) and for random keyring names; pairs that differ only in identities (same injected ephemeral/payload/plaintext/partition) must agree on all clear fields and on length; length = 132/36 + 32*chunks + |P|.",
+   TB, "DESIGN.md 4 C08"),
+ "C09": ("exploration",
+   "runtime monitoring: crash supervisor (catch_unwind in journaling child processes, checked + release builds), reader call budgets, per-call allocator readings, CLI argv supervisor",
+   "Every untrusted-input surface is offered prefixes of authentic inputs, all short strings over small alphabets, attacker-chosen length fields, mutations and random strings inside child processes that journal the input; each call is watched for panic, abort, unbounded reads and input-dependent allocation. The real binary is started with every argv up to a length bound over its vocabulary.",
+   "A clean run is not absence of crashes on inputs not driven. Infinite Interrupted readers and the interactive tty path are outside the quantifier.", "DESIGN.md 4 C09"),
+ "C10": ("fault_enumeration",
+   "runtime monitoring: fault injection at every I/O call index with prefix and error-side oracle; real OS faults through the CLI",
+   "For each (input, schedule) pair a fault-free run fixes the call counts and reference output; one run per fault point (every read/write/flush index x error kinds incl. Interrupted and Ok(0)); oracle: no panic, error of the failing side (or retried-and-complete for Interrupted), sink a prefix of the fault-free output. Exhaustive over read partitions at small scope; production size and /dev/full, closed pipes, directories through the CLI.",
+   TB, "DESIGN.md 4 C10"),
+ "C11": ("exploration",
+   "runtime monitoring: counting global allocator (thread-scoped peak/largest block) + logical read/write lag monitor; max RSS of the real binary via time(1)",
+   "Streams of 3..65600 chunks from a generator through the real encryptor and decryptor (two threads, fixed ring buffer): peak live heap and largest block must stay within one chunk of the 3-chunk reading, and each output chunk must be written before more than two further input chunks were consumed; same at chunk size 1 up to 10^6 chunks; the CLI's max RSS for 1 MiB vs 256 MiB/1 GiB inputs must be flat.",
+   "Sizes above about 4 GiB are not driven. Harness allocations on measured threads are constant-size.", "DESIGN.md 4 C11"),
+ "C12": ("exploration",
+   "runtime monitoring: CLI supervisor over the wiring matrix with the reference decoder as oracle",
+   "Each logical request runs under {file|stdin|dribbled stdin} x {-o|stdout file|stdout pipe} x {-k|env} x {short|long} x {command|alias}; exit 0 iff the reference says the operation completes (with the right bytes), exit 1 with Error: otherwise; the sender is named by the entry holding the authenticated key or reported unknown with its encoding; all wirings of a request must agree.",
+   TB + " Passwords travel through --env-pass only.", "DESIGN.md 4 C12"),
+ "C13": ("fault_enumeration",
+   "runtime monitoring: output-path state monitor across the command x failure-cause x prior-state matrix",
+   "For every command that writes an output file and every failure cause the statement lists, with the output path absent or holding known content: snapshot (existence, bytes, inode), run the real binary, compare; exit must be 1. Later-chunk failures must leave exactly the authenticated prefix.",
+   "Causes are those enumerated in the evidence file; OS-level faults while writing are C10's.", "DESIGN.md 4 C13"),
+ "C14": ("exploration",
+   "runtime monitoring: keyring-file history monitor (prefix, parse by two parsers, every key usable)",
+   "Histories of 1..6 key generate -o F from each initial state of F; after every step the old bytes must be a prefix of the new ones, the file must parse with the real parser and an independent tokenizer, and every key so far must unlock (reference) under its own password to the listed public key; finally the real binary encrypts/decrypts between generated names.",
+   TB, "DESIGN.md 4 C14"),
+ "C15": ("exploration",
+   "runtime monitoring: lock/unlock differential vs the documented format on OpenSSL; all 672 single-bit flips; malformed-string model",
+   "The CLI's real lock/unlock code (compiled from the working tree) against the specification: string-equal lock output, spec-made strings unlock to the original, every single-bit flip of a blob fails, wrong passwords fail (HMAC-equivalent family = known finding), strings of every other length/alphabet/padding fail; extract-pub through the real binary.",
+   TB, "DESIGN.md 4 C15"),
+ "C16": ("exploration",
+   "runtime monitoring: CLI history monitor over change-pass / extract-pub sequences with reference unlock and secret-leak scanner",
+   "Histories of key generate followed by 1..8 change-pass steps over a password pool, with extract-pub and encrypt/decrypt interleaved: the newest string must unlock (reference) to the original key under the newest password, earlier different passwords must fail, salts never repeat, extract-pub prints the reference encoding, and no output contains the raw private key.",
+   TB, "DESIGN.md 4 C16"),
+ "C17": ("exploration",
+   "runtime monitoring: parser differential against a three-valued model over exhaustive token sequences; checksum rule differential",
+   "Every sequence of up to L line tokens (8 spacing styles) is labelled must-accept / must-reject / either by construction and run through the real parser; on acceptance the entries must be the sections in order with unique names and keys; tool-written keyrings for every accepted name must parse back; every single-character corruption of an encoded key follows the checksum rule; random text never crashes the parser.",
+   "Inputs labelled 'either' (duplicate field in a section, stray fields, junk, empty file) are only checked for the consequences of acceptance.", "DESIGN.md 4 C17"),
+ "C18": ("exploration",
+   "runtime monitoring + sanitizers: scrypt differential vs OpenSSL; C ABI under canaries (dlopen), valgrind memcheck, AddressSanitizer and Miri",
+   "Library scrypt vs EVP_PBE_scrypt on a covering parameter grid; the cdylib built from the working tree called with canaried buffers; a C driver with exact-size heap buffers under valgrind and ASan; the extern C wrapper under Miri with exact-size allocations, dangling and NULL pointers for empty inputs; NULL inputs also against a debug-assertions build.",
+   "Tuples with 128*N*r > 64 MiB are not driven. Red-zone tools miss non-adjacent overflows; Miri covers the wrapper byte-precisely but only for small N.", "DESIGN.md 4 C18"),
+ "C19": ("exploration",
+   "runtime monitoring: primitive differential vs OpenSSL / RFC 7748 ladder; tamper matrix; nonce layout over the whole u64 range",
+   "AEAD on the full (|pt| 0..130) x (|aad| 0..40) grid for 3 keys; every bit of ciphertext, tag, nonce, key and aad flipped must fail, every truncation incl. shorter than a tag must be an error; X25519 on random, non-canonical and low-order inputs with symmetry and base-point checks; SHA-256, HMAC, HKDF over length grids; Noise nonce for counters across the u64 range.",
+   TB, "DESIGN.md 4 C19"),
+ "C20": ("exploration",
+   "runtime monitoring + sanitizer: allocator drop-time inspection of watched blocks; drop_in_place slots; same program under Miri",
+   "Every PrivateKey built through each constructor and dropped in every order (all permutations of 5, scope exit, mem::replace, struct field, Vec, unwinding) is inspected by the global allocator at dealloc time; PayloadKey is observed in a Box and in a slot dropped in place; a plain Vec is the positive control; Miri additionally checks zeroize's volatile writes.",
+   "Register/stack copies made by the compiler are invisible to allocator- or Miri-level observation.", "DESIGN.md 4 C20"),
 }
 
 def main():
@@ -33,7 +109,7 @@ def main():
                 "technique": tech,
             })
         else:
-            na.append({"property_id": pid, "reason": "monitor not built yet in this round (planned in DESIGN.md); not a claim that the technique cannot apply"})
+            na.append({"property_id": pid, "reason": "no monitor registered"})
     m = {
         "version": 1,
         "setup_cmd": "./setup.sh",
